@@ -1,5 +1,185 @@
 package rules
 
-import "cvsslint/internal/report"
+import (
+	"fmt"
+	"io"
+	"os"
+	"os/exec"
+	"path/filepath"
+	"sort"
+	"strings"
+	"time"
 
-func selfCheck(ctx *report.Ctx, prop, repo, verif string) {}
+	"cvsslint/internal/facts"
+	"cvsslint/internal/load"
+	"cvsslint/internal/report"
+)
+
+// RunOn loads one variant of the tree at dir and applies prop's rule set into ctx.
+func RunOn(ctx *report.Ctx, prop, dir string, v load.Variant) (pkgs []string, nfuncs int, err error) {
+	p, err := load.Load(dir, v)
+	if err != nil {
+		ctx.Undecided("load", v.Name, "", err.Error())
+		return nil, 0, err
+	}
+	for _, pk := range p.Pkgs {
+		pkgs = append(pkgs, load.Rel(pk.PkgPath))
+	}
+	f := facts.Build(p)
+	Registry[prop](&Env{P: p, F: f, C: ctx})
+	return pkgs, p.NFuncs, nil
+}
+
+func copyTree(src, dst string) error {
+	return filepath.Walk(src, func(path string, info os.FileInfo, err error) error {
+		if err != nil {
+			return err
+		}
+		rel, _ := filepath.Rel(src, path)
+		if rel == ".git" || strings.HasPrefix(rel, ".git"+string(filepath.Separator)) {
+			if info.IsDir() {
+				return filepath.SkipDir
+			}
+			return nil
+		}
+		target := filepath.Join(dst, rel)
+		if info.IsDir() {
+			return os.MkdirAll(target, 0o755)
+		}
+		if !info.Mode().IsRegular() {
+			return nil
+		}
+		in, err := os.Open(path)
+		if err != nil {
+			return err
+		}
+		defer in.Close()
+		out, err := os.Create(target)
+		if err != nil {
+			return err
+		}
+		defer out.Close()
+		_, err = io.Copy(out, in)
+		return err
+	})
+}
+
+func failingKeys(ctx *report.Ctx, verif string) map[string]bool {
+	out := map[string]bool{}
+	res := ctx.Evaluate(verif)
+	for _, o := range res.Bad {
+		out[o.Rule+" | "+o.Construct] = true
+	}
+	return out
+}
+
+// selfCheck (thorough tier): every /verif/mutants/<prop>-*.patch — a
+// one-instance edit that breaks the property — must make this property's
+// rule set report a violation on a scratch copy of /repo's working tree, and
+// every neutral-*.patch (behaviour-preserving refactoring) must not add a
+// single failing obligation. One copy at a time, removed immediately.
+func selfCheck(ctx *report.Ctx, prop, repo, verif string) {
+	dir := filepath.Join(verif, "mutants")
+	ents, err := os.ReadDir(dir)
+	if err != nil {
+		ctx.Extra["self_check"] = "no mutants directory"
+		return
+	}
+	var patches []string
+	for _, en := range ents {
+		n := en.Name()
+		if strings.HasSuffix(n, ".patch") && (strings.HasPrefix(n, prop+"-") || strings.HasPrefix(n, "neutral-")) {
+			patches = append(patches, n)
+		}
+	}
+	sort.Strings(patches)
+	base := failingKeys(ctx, verif)
+	type result struct {
+		Patch   string   `json:"patch"`
+		Kind    string   `json:"kind"`
+		Outcome string   `json:"outcome"`
+		Reports []string `json:"reports,omitempty"`
+		WallS   float64  `json:"wall_s"`
+	}
+	var results []result
+	var failures []string
+	for _, pn := range patches {
+		t0 := time.Now()
+		kind := "mutant"
+		if strings.HasPrefix(pn, "neutral-") {
+			kind = "neutral"
+		}
+		r := result{Patch: pn, Kind: kind}
+		tmp, err := os.MkdirTemp("", "cvsslint-self-")
+		if err != nil {
+			r.Outcome = "skipped: " + err.Error()
+			results = append(results, r)
+			continue
+		}
+		func() {
+			defer os.RemoveAll(tmp)
+			scratch := filepath.Join(tmp, "repo")
+			if err := copyTree(repo, scratch); err != nil {
+				r.Outcome = "skipped: copy failed: " + err.Error()
+				return
+			}
+			cmd := exec.Command("patch", "-p1", "-s", "-f", "--no-backup-if-mismatch", "-i", filepath.Join(dir, pn))
+			cmd.Dir = scratch
+			if out, err := cmd.CombinedOutput(); err != nil {
+				r.Outcome = "skipped: patch does not apply to the current tree (" + strings.TrimSpace(firstLine(string(out))) + ")"
+				return
+			}
+			sub := report.NewCtx(prop, "self-check")
+			func() {
+				defer func() {
+					if rec := recover(); rec != nil {
+						sub.Undecided("checker-panic", pn, "", fmt.Sprint(rec))
+					}
+				}()
+				RunOn(sub, prop, scratch, load.Variant{Name: "default"})
+			}()
+			got := failingKeys(sub, verif)
+			var added []string
+			for k := range got {
+				if !base[k] {
+					added = append(added, k)
+				}
+			}
+			sort.Strings(added)
+			if len(added) > 6 {
+				added = append(added[:6], fmt.Sprintf("... %d more", len(added)-6))
+			}
+			r.Reports = added
+			switch {
+			case kind == "mutant" && len(added) > 0:
+				r.Outcome = "caught"
+			case kind == "mutant":
+				r.Outcome = "MISSED"
+				failures = append(failures, pn+" (a property-breaking edit was not reported)")
+			case len(added) == 0:
+				r.Outcome = "silent"
+			default:
+				r.Outcome = "FALSE ALARM"
+				failures = append(failures, pn+" (a behaviour-preserving refactoring was reported: "+added[0]+")")
+			}
+		}()
+		r.WallS = time.Since(t0).Seconds()
+		results = append(results, r)
+	}
+	ctx.Extra["self_check"] = results
+	n := map[string]int{}
+	for _, r := range results {
+		n[strings.SplitN(r.Outcome, ":", 2)[0]]++
+	}
+	ctx.Extra["self_check_summary"] = n
+	if len(failures) > 0 {
+		ctx.SelfCheckFailed = strings.Join(failures, "; ")
+	}
+}
+
+func firstLine(s string) string {
+	if i := strings.IndexByte(s, '\n'); i >= 0 {
+		return s[:i]
+	}
+	return s
+}
